@@ -73,6 +73,17 @@ def execute(spec, keep_coords=False):
                     raise RuntimeError(f"subscriber failed on {name} #{fn}")
 
         h.RE.subscribe(failing_subscriber)
+    if spec.get("doc_put"):
+        # a document consumer that writes to a (monitored) signal when it sees a document of that kind
+        pname, devname = spec["doc_put"]
+        nput = {"n": 0}
+
+        def putting_subscriber(name, doc):
+            if name == pname:
+                nput["n"] += 1
+                d[devname].put(9000 + nput["n"])
+
+        h.RE.subscribe(putting_subscriber)
     h.record_coords = keep_coords
     decisions = list(spec.get("decisions", []))
     RE = h.RE
